@@ -351,3 +351,569 @@ theorem deref_isSome (it : AIt) (a : Arr) : (it.deref a).isSome = (it.arr.isSome
 end AIt
 
 end Momo.Ver
+
+namespace Momo.Ver
+
+/-! ### DataTable: the two-table world, uses of handles, histories -/
+
+namespace BWorld
+
+theorem setObj_cs (w : BWorld) (o : Bool) (cs' : Cells) (t' : Table) : (w.setObj o cs' t').cs = cs' := by
+  cases o <;> rfl
+theorem setObj_obj_same (w : BWorld) (o : Bool) (cs' : Cells) (t' : Table) : (w.setObj o cs' t').obj o = t' := by
+  cases o <;> rfl
+theorem setObj_obj_other (w : BWorld) (o : Bool) (cs' : Cells) (t' : Table) : (w.setObj o cs' t').obj (!o) = w.obj (!o) := by
+  cases o <;> rfl
+
+/-- "throws std::invalid_argument and leaves the container unchanged" -/
+theorem step_reject_unchanged (w : BWorld) (op : BOp) (h : (w.step op).2 = none) : (w.step op).1 = w := by
+  cases op <;> simp only [step] at h ⊢ <;> first | rfl | (split at h <;> simp_all) | simp_all
+
+theorem step_eq_of_none (w : BWorld) (op : BOp) (h : (w.step op).2 = none) : w.step op = (w, none) :=
+  Prod.ext (step_reject_unchanged w op h) h
+
+/-- **stale row reference**: every entry point that is given it (alone or inside a range) throws; the world is unchanged -/
+theorem stale_rejected (w : BWorld) (op : BOp) (r : RowRef) (hr : r ∈ op.refs) (hs : Stale r.kp w.cs) : w.step op = (w, none) := by
+  apply step_eq_of_none
+  have t := fun t => Table.ref_stale_rejected t w.cs r hs
+  cases op <;> simp only [BOp.refs, List.mem_singleton, List.not_mem_nil] at hr
+  case get r' => subst hr; simp only [step, (t w.a).1, Option.map_none]
+  case updB o r' b => subst hr; simp only [step, (t _).2.2.1 b]
+  case rmRef o r' => subst hr; simp only [step, (t _).2.1]
+  case mkMut o r' => subst hr; simp only [step, (t _).2.2.2.1, Option.map_none]
+  case newRow r' => subst hr; simp only [step, (t w.a).2.2.2.2.1, Option.map_none]
+  case rmRefs o rs keep =>
+    obtain ⟨rs1, rs2, rfl⟩ := List.append_of_mem hr
+    simp only [step, (t _).2.2.2.2.2 rs1 rs2 keep]
+  case selSet s i r' => subst hr; simp only [step, (Sel.store_stale_rejected s w.cs r hs).1 i, Option.map_none]
+  case selAdd s r' => subst hr; simp only [step, (Sel.store_stale_rejected s w.cs r hs).2.1, Option.map_none]
+  case selIns s i r' => subst hr; simp only [step, (Sel.store_stale_rejected s w.cs r hs).2.2 i, Option.map_none]
+
+/-- **row reference of another table** -/
+theorem foreign_rejected (w : BWorld) (op : BOp) (r : RowRef) (o : Bool) (hr : r ∈ op.refs) (ho : op.on = some o)
+    (hne : r.tbl ≠ (w.obj o).id) : w.step op = (w, none) := by
+  apply step_eq_of_none
+  have t := Table.ref_foreign_rejected (w.obj o) w.cs r hne
+  cases op <;> simp only [BOp.on, Option.some.injEq, reduceCtorEq] at ho <;> subst ho <;>
+    simp only [BOp.refs, List.mem_singleton] at hr
+  case updB r' b => subst hr; simp only [step, t.2.1 b]
+  case rmRef r' => subst hr; simp only [step, t.1]
+  case mkMut r' => subst hr; simp only [step, t.2.2.1, Option.map_none]
+  case rmRefs rs keep =>
+    obtain ⟨rs1, rs2, rfl⟩ := List.append_of_mem hr
+    simp only [step, t.2.2.2 rs1 rs2 keep]
+
+/-- a reference of another table cannot be stored into a selection -/
+theorem sel_foreign_rejected (w : BWorld) (s : Sel) (r : RowRef) (hne : s.tbl ≠ r.tbl) (i : Nat) :
+    w.step (.selSet s i r) = (w, none) ∧ w.step (.selAdd s r) = (w, none) ∧ w.step (.selIns s i r) = (w, none) := by
+  have hb : (s.tbl == r.tbl) = false := by simp [hne]
+  refine ⟨?_, ?_, ?_⟩ <;> apply step_eq_of_none <;> simp only [step, Option.map_eq_none_iff]
+  · unfold Sel.set; cases chk (r.kp.check w.cs) <;> cases chk (decide (i < s.raws.length)) <;> simp [hb, chk]
+  · unfold Sel.add; cases chk (r.kp.check w.cs) <;> simp [hb, chk]
+  · unfold Sel.insert; cases chk (r.kp.check w.cs) <;> cases chk (decide (i ≤ s.raws.length)) <;> simp [hb, chk]
+
+/-- **stale selection**: its column reads throw, and every reference taken out of it is stale -/
+theorem sel_stale_rejected (w : BWorld) (s : Sel) (hs : Stale s.kp w.cs) :
+    (s.raws ≠ [] → w.step (.selRead s) = (w, none)) ∧
+    (∀ i r, (w.step (.selAt s i)).2 = some (.ref r) → Stale r.kp w.cs) := by
+  constructor
+  · intro hne
+    apply step_eq_of_none
+    simp only [step, (Sel.stale_rejected s w.cs hs).2 hne, Option.map_none]
+  · intro i r hr
+    simp only [step, Sel.at_] at hr
+    cases h : s.raws[i]? <;> simp [h] at hr
+    subst hr
+    exact hs
+
+/-- **stale hash bounds** -/
+theorem bounds_stale_rejected (w : BWorld) (m : MBounds) (hs : Stale m.ckp w.cs) (i : Nat) : w.step (.mbAt m i) = (w, none) := by
+  apply step_eq_of_none
+  simp only [step, MBounds.stale_rejected m w.cs hs i, Option.map_none]
+
+/-- "an out-of-range index": row numbers, selection indexes, bounds indexes -/
+theorem index_rejected (w : BWorld) (o : Bool) (s : Sel) (m : MBounds) (i n a b : Nat) :
+    ((w.obj o).rows.length ≤ i → w.step (.at_ o i) = (w, none) ∧ w.step (.rmNum o i) = (w, none) ∧ w.step (.updRow o i a b) = (w, none)) ∧
+    ((w.obj o).rows.length < i → w.step (.insert o i a b) = (w, none)) ∧
+    (s.raws.length ≤ i → w.step (.selAt s i) = (w, none)) ∧
+    (s.raws.length < i + n → w.step (.selRm s i n) = (w, none)) ∧
+    (m.raws.length ≤ i → w.step (.mbAt m i) = (w, none)) := by
+  refine ⟨fun h => ⟨?_, ?_, ?_⟩, fun h => ?_, fun h => ?_, fun h => ?_, fun h => ?_⟩ <;> apply step_eq_of_none
+  · have := Table.at_isSome (w.obj o) w.cs i
+    have hlt : ¬ i < (w.obj o).rows.length := Nat.not_lt.mpr h
+    simp only [hlt, decide_false] at this
+    simp only [step, Option.map_eq_none_iff]
+    cases hh : (w.obj o).at_ w.cs i <;> simp_all
+  · have := Table.removeNum_isSome (w.obj o) w.cs i
+    have hlt : ¬ i < (w.obj o).rows.length := Nat.not_lt.mpr h
+    simp only [hlt, decide_false] at this
+    simp only [step]
+    cases hh : (w.obj o).removeNum w.cs i <;> simp_all
+  · simp only [step, Table.tryUpdateRow, List.getElem?_eq_none h, Option.bind_eq_bind, Option.bind_none]
+  · have := Table.tryInsert_isSome (w.obj o) w.cs i a b
+    have hlt : ¬ i ≤ (w.obj o).rows.length := Nat.not_le.mpr h
+    simp only [hlt, decide_false] at this
+    simp only [step]
+    cases hh : (w.obj o).tryInsert w.cs i a b <;> simp_all
+  · simp only [step, Sel.at_, List.getElem?_eq_none h, Option.bind_eq_bind, Option.bind_none, Option.map_none]
+  · have := Sel.remove_isSome s i n
+    have hlt : ¬ i + n ≤ s.raws.length := Nat.not_le.mpr h
+    simp only [hlt, decide_false] at this
+    simp only [step, Option.map_eq_none_iff]
+    cases hh : s.remove i n <;> simp_all
+  · simp only [step, MBounds.at_, List.getElem?_eq_none h, Option.bind_eq_bind, Option.bind_none, Option.map_none]
+
+end BWorld
+end Momo.Ver
+namespace Momo.Ver
+namespace BWorld
+
+/-- the four version cells of the two tables are pairwise distinct and the column lists are different objects -/
+def WF (w : BWorld) : Prop :=
+  w.a.ccell ≠ w.a.rcell ∧ w.a.ccell ≠ w.b.ccell ∧ w.a.ccell ≠ w.b.rcell ∧
+  w.a.rcell ≠ w.b.ccell ∧ w.a.rcell ≠ w.b.rcell ∧ w.b.ccell ≠ w.b.rcell ∧ w.a.id ≠ w.b.id
+
+/-- some row of `rows` has no counterpart (same raw) in `rows'`: it was removed or replaced -/
+def Gone (rows rows' : List RowV) : Prop := ∃ x ∈ rows, ∀ y ∈ rows', y.raw ≠ x.raw
+
+/-- facts about one step that the history theorems need -/
+structure StepFacts (w w' : BWorld) : Prop where
+  wf : w'.WF
+  same : ∀ o, (w'.obj o).id = (w.obj o).id ∧ (w'.obj o).ccell = (w.obj o).ccell ∧ (w'.obj o).rcell = (w.obj o).rcell
+  mono : ∀ c, w.cs c ≤ w'.cs c
+  cbump : ∀ o, (w'.obj o).rows ≠ (w.obj o).rows → w.cs (w.obj o).ccell < w'.cs (w.obj o).ccell
+  rbump : ∀ o, Gone (w.obj o).rows (w'.obj o).rows → w.cs (w.obj o).rcell < w'.cs (w.obj o).rcell
+
+theorem StepFacts.refl (w : BWorld) (hw : w.WF) : StepFacts w w :=
+  ⟨hw, fun _ => ⟨rfl, rfl, rfl⟩, fun _ => Nat.le_refl _, fun _ h => absurd rfl h, fun _ ⟨x, hx, h⟩ => absurd rfl (h x hx)⟩
+
+theorem obj_cells_ne (w : BWorld) (hw : w.WF) (o : Bool) : (w.obj o).ccell ≠ (w.obj o).rcell := by
+  cases o
+  · exact hw.1
+  · exact hw.2.2.2.2.2.1
+
+/-- updating table `o` with a `TblEff` effect -/
+theorem facts_of_eff (w : BWorld) (hw : w.WF) (o : Bool) {cs' : Cells} {t' : Table} (he : TblEff w.cs (w.obj o) cs' t') :
+    StepFacts w (w.setObj o cs' t') := by
+  obtain ⟨hid, hcc, hrc, nc, nr, hcs, hpc, hpr⟩ := he
+  have hne := obj_cells_ne w hw o
+  obtain ⟨w1, w2, w3, w4, w5, w6, w7⟩ := hw
+  have hmono : ∀ c, w.cs c ≤ (w.setObj o cs' t').cs c := by
+    intro c; rw [setObj_cs, hcs]; exact Nat.le_trans (le_bumpN _ _ _ _) (le_bumpN _ _ _ _)
+  cases o
+  · simp only [obj, Bool.false_eq_true, ↓reduceIte] at hid hcc hrc hcs hpc hpr hne
+    refine ⟨?_, ?_, hmono, ?_, ?_⟩
+    · simp only [setObj, Bool.false_eq_true, ↓reduceIte, WF, hid, hcc, hrc]; exact ⟨w1, w2, w3, w4, w5, w6, w7⟩
+    · intro o'; cases o' <;> simp [setObj, obj, hid, hcc, hrc]
+    · intro o' hch
+      cases o'
+      · simp only [setObj, obj, Bool.false_eq_true, ↓reduceIte] at hch ⊢
+        have := hpc hch
+        rw [hcs, bumpN_other _ _ hne, bumpN_same]; omega
+      · simp [setObj, obj] at hch
+    · intro o' hg
+      cases o'
+      · simp only [setObj, obj, Bool.false_eq_true, ↓reduceIte] at hg ⊢
+        have := hpr hg
+        rw [hcs, bumpN_same, bumpN_other _ _ (fun e => hne e.symm)]; omega
+      · obtain ⟨x, hx, h⟩ := hg
+        simp only [setObj, obj, Bool.false_eq_true, ↓reduceIte] at hx h
+        exact absurd rfl (h x hx)
+  · simp only [obj, ↓reduceIte] at hid hcc hrc hcs hpc hpr hne
+    refine ⟨?_, ?_, hmono, ?_, ?_⟩
+    · simp only [setObj, ↓reduceIte, WF, hid, hcc, hrc]; exact ⟨w1, w2, w3, w4, w5, w6, w7⟩
+    · intro o'; cases o' <;> simp [setObj, obj, hid, hcc, hrc]
+    · intro o' hch
+      cases o'
+      · simp [setObj, obj] at hch
+      · simp only [setObj, obj, ↓reduceIte] at hch ⊢
+        have := hpc hch
+        rw [hcs, bumpN_other _ _ hne, bumpN_same]; omega
+    · intro o' hg
+      cases o'
+      · obtain ⟨x, hx, h⟩ := hg
+        simp only [setObj, obj, Bool.false_eq_true, ↓reduceIte] at hx h
+        exact absurd rfl (h x hx)
+      · simp only [setObj, obj, ↓reduceIte] at hg ⊢
+        have := hpr hg
+        rw [hcs, bumpN_same, bumpN_other _ _ (fun e => hne e.symm)]; omega
+
+/-- **every entry point**: cells and column lists stay, counters are monotone, the change version moves whenever the rows of
+    a table changed and the remove version whenever a row is gone -/
+theorem step_facts (w : BWorld) (hw : w.WF) (op : BOp) : StepFacts w (w.step op).1 := by
+  cases op with
+  | add o a b => exact facts_of_eff w hw o (Table.tryAdd_eff _ _ _ _)
+  | insert o i a b =>
+    simp only [step]; split
+    · rename_i x hx; exact facts_of_eff w hw o (Table.tryInsert_eff hx)
+    · exact StepFacts.refl w hw
+  | updRow o i a b =>
+    simp only [step]; split
+    · rename_i x hx; exact facts_of_eff w hw o (Table.tryUpdateRow_eff hx)
+    · exact StepFacts.refl w hw
+  | updB o r b =>
+    simp only [step]; split
+    · rename_i x hx; exact facts_of_eff w hw o (Table.updateB_eff hx)
+    · exact StepFacts.refl w hw
+  | rmRef o r =>
+    simp only [step]; split
+    · rename_i x hx; exact facts_of_eff w hw o (Table.removeRef_eff hx)
+    · exact StepFacts.refl w hw
+  | rmNum o i =>
+    simp only [step]; split
+    · rename_i x hx; exact facts_of_eff w hw o (Table.removeNum_eff hx)
+    · exact StepFacts.refl w hw
+  | clear o => exact facts_of_eff w hw o (Table.clear_eff _ _)
+  | rmIf o m r => exact facts_of_eff w hw o (Table.removeIf_eff _ _ _ _)
+  | rmRefs o rs keep =>
+    simp only [step]; split
+    · rename_i x hx; exact facts_of_eff w hw o (Table.removeRefs_eff hx)
+    · exact StepFacts.refl w hw
+  | _ => exact StepFacts.refl w hw
+
+/-! ### histories -/
+
+def run (w : BWorld) : List BOp → BWorld
+  | [] => w
+  | op :: ops => run (w.step op).1 ops
+
+theorem run_basic (ops : List BOp) : ∀ (w : BWorld), w.WF → (w.run ops).WF ∧ (∀ c, w.cs c ≤ (w.run ops).cs c) ∧
+    ∀ o, ((w.run ops).obj o).id = (w.obj o).id ∧ ((w.run ops).obj o).ccell = (w.obj o).ccell ∧ ((w.run ops).obj o).rcell = (w.obj o).rcell := by
+  induction ops with
+  | nil => intro w hw; exact ⟨hw, fun _ => Nat.le_refl _, fun _ => ⟨rfl, rfl, rfl⟩⟩
+  | cons op ops ih =>
+    intro w hw
+    have h1 := step_facts w hw op
+    have h2 := ih _ h1.wf
+    refine ⟨h2.1, fun c => Nat.le_trans (h1.mono c) (h2.2.1 c), fun o => ?_⟩
+    obtain ⟨a1, a2, a3⟩ := h1.same o
+    obtain ⟨b1, b2, b3⟩ := h2.2.2 o
+    exact ⟨b1.trans a1, b2.trans a2, b3.trans a3⟩
+
+/-- some call of the history removed or replaced a row of table `o` -/
+def SomeRemoval (o : Bool) : BWorld → List BOp → Prop
+  | _, [] => False
+  | w, op :: ops => Gone (w.obj o).rows ((w.step op).1.obj o).rows ∨ SomeRemoval o (w.step op).1 ops
+
+/-- some call of the history changed the rows of table `o` in any way -/
+def SomeChange (o : Bool) : BWorld → List BOp → Prop
+  | _, [] => False
+  | w, op :: ops => ((w.step op).1.obj o).rows ≠ (w.obj o).rows ∨ SomeChange o (w.step op).1 ops
+
+theorem run_removal (o : Bool) (ops : List BOp) : ∀ (w : BWorld), w.WF → SomeRemoval o w ops →
+    w.cs (w.obj o).rcell < (w.run ops).cs (w.obj o).rcell := by
+  induction ops with
+  | nil => intro w _ h; exact absurd h (by simp [SomeRemoval])
+  | cons op ops ih =>
+    intro w hw hr
+    have h1 := step_facts w hw op
+    have h2 := run_basic ops _ h1.wf
+    simp only [run]
+    rcases hr with hg | hr
+    · exact Nat.lt_of_lt_of_le (h1.rbump o hg) (h2.2.1 _)
+    · have := ih _ h1.wf hr
+      rw [(h1.same o).2.2] at this
+      exact Nat.lt_of_le_of_lt (h1.mono _) this
+
+theorem run_change (o : Bool) (ops : List BOp) : ∀ (w : BWorld), w.WF → SomeChange o w ops →
+    w.cs (w.obj o).ccell < (w.run ops).cs (w.obj o).ccell := by
+  induction ops with
+  | nil => intro w _ h; exact absurd h (by simp [SomeChange])
+  | cons op ops ih =>
+    intro w hw hr
+    have h1 := step_facts w hw op
+    have h2 := run_basic ops _ h1.wf
+    simp only [run]
+    rcases hr with hg | hr
+    · exact Nat.lt_of_lt_of_le (h1.cbump o hg) (h2.2.1 _)
+    · have := ih _ h1.wf hr
+      rw [(h1.same o).2.1] at this
+      exact Nat.lt_of_le_of_lt (h1.mono _) this
+
+/-- **all (state, invalidating operation, subsequent use) triples, row references and selections**: a keeper of the remove
+    version of table `o` taken in `w0` (by `operator[]`, an insertion, a selection, a row pointer, hash bounds …) is stale
+    after any history in which a row of that table was removed or replaced -/
+theorem history_remove_keeper_stale (w0 : BWorld) (hw : w0.WF) (ops : List BOp) (o : Bool) (hr : SomeRemoval o w0 ops)
+    (hlt : (w0.run ops).cs (w0.obj o).rcell < w0.cs (w0.obj o).rcell + W) :
+    Stale (snap w0.cs (w0.obj o).rcell) (w0.run ops).cs :=
+  snap_stale (run_removal o ops w0 hw hr) hlt
+
+theorem history_ref_stale_rejected (w0 : BWorld) (hw : w0.WF) (ops : List BOp) (o : Bool) (op : BOp) (r : RowRef)
+    (hr : r ∈ op.refs) (hk : r.kp = snap w0.cs (w0.obj o).rcell) (hrm : SomeRemoval o w0 ops)
+    (hlt : (w0.run ops).cs (w0.obj o).rcell < w0.cs (w0.obj o).rcell + W) : (w0.run ops).step op = (w0.run ops, none) :=
+  stale_rejected _ op r hr (hk ▸ history_remove_keeper_stale w0 hw ops o hrm hlt)
+
+theorem history_sel_stale_rejected (w0 : BWorld) (hw : w0.WF) (ops : List BOp) (o : Bool) (s : Sel)
+    (hk : s.kp = snap w0.cs (w0.obj o).rcell) (hrm : SomeRemoval o w0 ops)
+    (hlt : (w0.run ops).cs (w0.obj o).rcell < w0.cs (w0.obj o).rcell + W) :
+    (s.raws ≠ [] → (w0.run ops).step (.selRead s) = (w0.run ops, none)) ∧
+    (∀ i r, ((w0.run ops).step (.selAt s i)).2 = some (.ref r) → ∀ op, r ∈ op.refs → (w0.run ops).step op = (w0.run ops, none)) := by
+  have hs : Stale s.kp (w0.run ops).cs := hk ▸ history_remove_keeper_stale w0 hw ops o hrm hlt
+  have := sel_stale_rejected (w0.run ops) s hs
+  exact ⟨this.1, fun i r hr op hm => stale_rejected _ op r hm (this.2 i r hr)⟩
+
+/-- hash bounds taken in `w0` are rejected after any history that changed the rows of their table in any way -/
+theorem history_bounds_stale_rejected (w0 : BWorld) (hw : w0.WF) (ops : List BOp) (o : Bool) (m : MBounds)
+    (hk : m.ckp = snap w0.cs (w0.obj o).ccell) (hch : SomeChange o w0 ops)
+    (hlt : (w0.run ops).cs (w0.obj o).ccell < w0.cs (w0.obj o).ccell + W) (i : Nat) :
+    (w0.run ops).step (.mbAt m i) = (w0.run ops, none) :=
+  bounds_stale_rejected _ m (hk ▸ snap_stale (run_change o ops w0 hw hch) hlt) i
+
+end BWorld
+end Momo.Ver
+namespace Momo.Ver
+
+namespace Table
+
+theorem tryAdd_refused (t : Table) (cs : Cells) (a b : Nat) (hf : (t.tryAdd cs a b).2.2.2 = false) : (t.tryAdd cs a b).1 = cs := by
+  unfold tryAdd at hf ⊢
+  split
+  · rfl
+  · rename_i h; simp [h] at hf
+
+theorem tryInsert_refused {t : Table} {cs : Cells} {i a b : Nat} {r} (hr : t.tryInsert cs i a b = some r) (hf : r.2.2.2 = false) :
+    r.1 = cs := by
+  unfold tryInsert at hr
+  cases h1 : chk (decide (i ≤ t.rows.length)) <;> simp [h1] at hr
+  split at hr <;> simp at hr <;> subst hr
+  · rfl
+  · simp at hf
+
+theorem tryUpdateRow_refused {t : Table} {cs : Cells} {i a b : Nat} {r} (hr : t.tryUpdateRow cs i a b = some r) (hf : r.2.2.2 = false) :
+    r.1 = cs := by
+  unfold tryUpdateRow at hr
+  cases h1 : t.rows[i]? <;> simp [h1] at hr
+  split at hr <;> simp at hr <;> subst hr
+  · rfl
+  · simp at hf
+
+end Table
+
+/-- a selection / row pointer whose keeper passes `Check()`: its column reads and the references taken out of it are accepted -/
+theorem Sel.check_accepted (s : Sel) (cs : Cells) (h : s.kp.check cs = true) :
+    (∀ i x, s.at_ i = some x → (x.get cs).isSome = true) ∧ (s.readAll cs).isSome = true := by
+  constructor
+  · intro i x hx
+    unfold Sel.at_ at hx
+    cases hh : s.raws[i]? <;> simp [hh] at hx
+    subst hx
+    simp [RowRef.get, h, chk]
+  · unfold Sel.readAll
+    split
+    · rfl
+    · simp [h, chk]
+
+/-- hash bounds whose change-version keeper passes `Check()` can be indexed inside their count -/
+theorem MBounds.check_accepted (m : MBounds) (cs : Cells) (h : m.ckp.check cs = true) (i : Nat) (hi : i < m.raws.length) :
+    (m.at_ cs i).isSome = true := by
+  unfold MBounds.at_
+  rw [List.getElem?_eq_getElem hi]
+  simp [h, chk]
+
+/-- entry points of DataTable that never touch the remove version: insertions and updates of one column -/
+def BOp.KeepsRows : BOp → Prop
+  | .add _ _ _ => True
+  | .insert _ _ _ _ => True
+  | .updB _ _ _ => True
+  | _ => False
+
+namespace BWorld
+
+/-- the effect of a mutating entry point on the table it is called on -/
+theorem step_eff (w : BWorld) (op : BOp) (o : Bool) (ht : op.target = some o) :
+    TblEff w.cs (w.obj o) (w.step op).1.cs ((w.step op).1.obj o) := by
+  cases op <;> simp only [BOp.target, Option.some.injEq, reduceCtorEq] at ht <;> subst ht <;> simp only [step]
+  case add a b => rw [setObj_cs, setObj_obj_same]; exact Table.tryAdd_eff _ _ _ _
+  case insert i a b =>
+    split
+    · rename_i x hx; rw [setObj_cs, setObj_obj_same]; exact Table.tryInsert_eff hx
+    · exact TblEff.refl _ _
+  case updRow i a b =>
+    split
+    · rename_i x hx; rw [setObj_cs, setObj_obj_same]; exact Table.tryUpdateRow_eff hx
+    · exact TblEff.refl _ _
+  case updB r b =>
+    split
+    · rename_i x hx; rw [setObj_cs, setObj_obj_same]; exact Table.updateB_eff hx
+    · exact TblEff.refl _ _
+  case rmRef r =>
+    split
+    · rename_i x hx; rw [setObj_cs, setObj_obj_same]; exact Table.removeRef_eff hx
+    · exact TblEff.refl _ _
+  case rmNum i =>
+    split
+    · rename_i x hx; rw [setObj_cs, setObj_obj_same]; exact Table.removeNum_eff hx
+    · exact TblEff.refl _ _
+  case clear => rw [setObj_cs, setObj_obj_same]; exact Table.clear_eff _ _
+  case rmIf m r => rw [setObj_cs, setObj_obj_same]; exact Table.removeIf_eff _ _ _ _
+  case rmRefs rs keep =>
+    split
+    · rename_i x hx; rw [setObj_cs, setObj_obj_same]; exact Table.removeRefs_eff hx
+    · exact TblEff.refl _ _
+
+theorem step_cs_of_no_target (w : BWorld) (op : BOp) (ht : op.target = none) : (w.step op).1.cs = w.cs := by
+  cases op <;> simp only [BOp.target, reduceCtorEq] at ht <;> rfl
+
+/-- the cells of the other table -/
+theorem other_cells (w : BWorld) (hw : w.WF) (o : Bool) :
+    (w.obj o).ccell ≠ (w.obj (!o)).ccell ∧ (w.obj o).ccell ≠ (w.obj (!o)).rcell ∧
+    (w.obj o).rcell ≠ (w.obj (!o)).ccell ∧ (w.obj o).rcell ≠ (w.obj (!o)).rcell := by
+  obtain ⟨w1, w2, w3, w4, w5, w6, w7⟩ := hw
+  cases o
+  · exact ⟨w2, w3, w4, w5⟩
+  · exact ⟨fun e => w2 e.symm, fun e => w4 e.symm, fun e => w3 e.symm, fun e => w5 e.symm⟩
+
+/-- one call that cannot invalidate handles of table `o`: it throws, or it is not a mutating entry point, or it mutates the
+    other table, or it is an insertion / replacement refused by the unique index, or - for handles that only watch the
+    remove version (`chg = false`: row references, selections, row pointers) - an insertion or a single-column update -/
+def QuietStep (o : Bool) (chg : Bool) (w : BWorld) (op : BOp) : Prop :=
+  (w.step op).2 = none ∨ op.target = none ∨ op.target = some (!o) ∨
+  (∃ r, (w.step op).2 = some (.refFlag r false)) ∨ (chg = false ∧ op.KeepsRows)
+
+/-- **no increment without a reason** (DataTable) -/
+theorem step_quiet (w : BWorld) (hw : w.WF) (o : Bool) (chg : Bool) (op : BOp) (hq : QuietStep o chg w op) :
+    (w.step op).1.cs (w.obj o).rcell = w.cs (w.obj o).rcell ∧
+    (chg = true → (w.step op).1.cs (w.obj o).ccell = w.cs (w.obj o).ccell) := by
+  have other : op.target = some (!o) → (w.step op).1.cs (w.obj o).rcell = w.cs (w.obj o).rcell ∧
+      (w.step op).1.cs (w.obj o).ccell = w.cs (w.obj o).ccell := by
+    intro ht
+    obtain ⟨_, _, _, nc, nr, hcs, _, _⟩ := step_eff w op (!o) ht
+    obtain ⟨h1, h2, h3, h4⟩ := other_cells w hw o
+    rw [hcs]
+    exact ⟨by rw [bumpN_other _ _ h4, bumpN_other _ _ h3], by rw [bumpN_other _ _ h2, bumpN_other _ _ h1]⟩
+  rcases hq with h | h | h | ⟨r, h⟩ | ⟨hc, hk⟩
+  · rw [step_reject_unchanged w op h]; exact ⟨rfl, fun _ => rfl⟩
+  · rw [step_cs_of_no_target w op h]; exact ⟨rfl, fun _ => rfl⟩
+  · exact ⟨(other h).1, fun _ => (other h).2⟩
+  · have : (w.step op).1.cs = w.cs := by
+      cases op <;> simp only [step] at h ⊢
+      case add o' a b =>
+        simp only [Option.some.injEq, BRes.refFlag.injEq] at h
+        rw [setObj_cs]; exact Table.tryAdd_refused _ _ _ _ h.2
+      case insert o' i a b =>
+        split at h
+        · rename_i x hx
+          simp only [Option.some.injEq, BRes.refFlag.injEq] at h
+          rw [setObj_cs]; exact Table.tryInsert_refused hx h.2
+        · simp at h
+      case updRow o' i a b =>
+        split at h
+        · rename_i x hx
+          simp only [Option.some.injEq, BRes.refFlag.injEq] at h
+          rw [setObj_cs]; exact Table.tryUpdateRow_refused hx h.2
+        · simp at h
+      all_goals first | (simp at h; done) | (split at h <;> simp at h; done)
+    rw [this]; exact ⟨rfl, fun _ => rfl⟩
+  · subst hc
+    refine ⟨?_, fun h => absurd h (by simp)⟩
+    cases op <;> simp only [BOp.KeepsRows] at hk
+    case add o' a b =>
+      by_cases ho : o' = o
+      · subst ho
+        simp only [step]; rw [setObj_cs]
+        exact Table.add_keeps_remove_version _ _ _ _ (obj_cells_ne w hw o')
+      · have : o' = !o := by cases o <;> cases o' <;> simp_all
+        exact (other (by simp [BOp.target, this])).1
+    case insert o' i a b =>
+      by_cases ho : o' = o
+      · subst ho
+        simp only [step]
+        split
+        · rename_i x hx; rw [setObj_cs]; exact Table.insert_keeps_remove_version (obj_cells_ne w hw o') hx
+        · rfl
+      · have : o' = !o := by cases o <;> cases o' <;> simp_all
+        exact (other (by simp [BOp.target, this])).1
+    case updB o' r b =>
+      by_cases ho : o' = o
+      · subst ho
+        simp only [step]
+        split
+        · rename_i x hx; rw [setObj_cs]; exact Table.updateB_keeps_remove_version (obj_cells_ne w hw o') hx
+        · rfl
+      · have : o' = !o := by cases o <;> cases o' <;> simp_all
+        exact (other (by simp [BOp.target, this])).1
+
+/-- every call of the history is a `QuietStep` for table `o` -/
+def AllQuiet (o : Bool) (chg : Bool) : BWorld → List BOp → Prop
+  | _, [] => True
+  | w, op :: ops => QuietStep o chg w op ∧ AllQuiet o chg (w.step op).1 ops
+
+theorem run_quiet (o : Bool) (chg : Bool) (ops : List BOp) : ∀ (w : BWorld), w.WF → AllQuiet o chg w ops →
+    (w.run ops).cs (w.obj o).rcell = w.cs (w.obj o).rcell ∧ (chg = true → (w.run ops).cs (w.obj o).ccell = w.cs (w.obj o).ccell) := by
+  induction ops with
+  | nil => intro w _ _; exact ⟨rfl, fun _ => rfl⟩
+  | cons op ops ih =>
+    intro w hw hq
+    have h1 := step_facts w hw op
+    have h2 := ih _ h1.wf hq.2
+    have h3 := step_quiet w hw o chg op hq.1
+    rw [(h1.same o).2.2, (h1.same o).2.1] at h2
+    simp only [run]
+    exact ⟨h2.1.trans h3.1, fun hc => (h2.2 hc).trans (h3.2 hc)⟩
+
+theorem snap_eq_of_cell_eq'' {cs cs' : Cells} {c : Nat} (h : cs' c = cs c) : snap cs c = snap cs' c := by
+  simp [snap, stored, h]
+
+/-- **no false positive over histories**, row references: a reference made in `w0` into table `o` is accepted by every entry
+    point of that table after any history of `QuietStep`s (insertions, single-column updates, refused insertions, calls that
+    threw, anything on the other table, non-mutating calls) -/
+theorem history_ref_fresh_accepted (w0 : BWorld) (hw : w0.WF) (ops : List BOp) (o : Bool) (hq : AllQuiet o false w0 ops) (raw : Nat) :
+    let r := (w0.obj o).mkRef w0.cs raw
+    let w := w0.run ops
+    (w.step (.get r)).2.isSome = true ∧ (∀ b, (w.step (.updB o r b)).2.isSome = true) ∧ (w.step (.rmRef o r)).2.isSome = true ∧
+    (w.step (.mkMut o r)).2.isSome = true ∧ (w.step (.newRow r)).2.isSome = true := by
+  intro r w
+  have hcell := (run_quiet o false ops w0 hw hq).1
+  obtain ⟨hid, _, hrc⟩ := (run_basic ops w0 hw).2.2 o
+  have hr : r = (w.obj o).mkRef w.cs raw := by
+    simp only [r, w, Table.mkRef, hid, hrc]; rw [snap_eq_of_cell_eq'' hcell]
+  have hf := Table.ref_fresh_accepted (w.obj o) w.cs raw
+  rw [← hr] at hf
+  refine ⟨?_, ?_, ?_, ?_, ?_⟩
+  · simp only [step, Option.isSome_map]; exact hf.1
+  · intro b
+    have := hf.2.2.1 b
+    simp only [step]
+    cases hh : (w.obj o).updateB w.cs r b with
+    | none => rw [hh] at this; simp at this
+    | some x => rfl
+  · have := hf.2.1
+    simp only [step]
+    cases hh : (w.obj o).removeRef w.cs r with
+    | none => rw [hh] at this; simp at this
+    | some x => rfl
+  · simp only [step, Option.isSome_map]; exact hf.2.2.2
+  · simp only [step, Option.isSome_map, Table.newRowFrom]
+    have := hf.1
+    simpa [RowRef.get] using this
+
+/-- … selections and row pointers (keeper of the remove version taken in `w0`): column reads are accepted and every reference
+    taken out of them can be read -/
+theorem history_sel_fresh_accepted (w0 : BWorld) (hw : w0.WF) (ops : List BOp) (o : Bool) (hq : AllQuiet o false w0 ops) (s : Sel)
+    (hk : s.kp = snap w0.cs (w0.obj o).rcell) :
+    let w := w0.run ops
+    (w.step (.selRead s)).2.isSome = true ∧ (∀ i r, (w.step (.selAt s i)).2 = some (.ref r) → (w.step (.get r)).2.isSome = true) := by
+  intro w
+  have hcell := (run_quiet o false ops w0 hw hq).1
+  have hc : s.kp.check w.cs = true := by rw [hk]; exact check_of_cell_eq hcell
+  have := Sel.check_accepted s w.cs hc
+  refine ⟨by simp only [step, Option.isSome_map]; exact this.2, ?_⟩
+  intro i r hr
+  simp only [step] at hr
+  cases hh : s.at_ i with
+  | none => rw [hh] at hr; simp at hr
+  | some x =>
+    rw [hh] at hr; simp only [Option.map_some, Option.some.injEq, BRes.ref.injEq] at hr; subst hr
+    simp only [step, Option.isSome_map]; exact this.1 i x hh
+
+/-- … hash bounds (keeper of the change version): accepted as long as no call changed the rows or incremented the change version -/
+theorem history_bounds_fresh_accepted (w0 : BWorld) (hw : w0.WF) (ops : List BOp) (o : Bool) (hq : AllQuiet o true w0 ops) (m : MBounds)
+    (hk : m.ckp = snap w0.cs (w0.obj o).ccell) (i : Nat) (hi : i < m.raws.length) :
+    ((w0.run ops).step (.mbAt m i)).2.isSome = true := by
+  have hcell := (run_quiet o true ops w0 hw hq).2 rfl
+  have hc : m.ckp.check (w0.run ops).cs = true := by rw [hk]; exact check_of_cell_eq hcell
+  simp only [step, Option.isSome_map]
+  exact MBounds.check_accepted m _ hc i hi
+
+end BWorld
+end Momo.Ver
